@@ -208,6 +208,10 @@ func c01Scalars(c *engine.Ctx) {
 	add("IRIs[1]", func() any { g := &universe.Gen{}; return ap.IRIs{g.IRI()} }, func() any { return new(ap.IRIs) })
 	add("IRI", func() any { return (&universe.Gen{}).IRI() }, func() any { return new(ap.IRI) })
 	add("MimeType", func() any { return ap.MimeType("text/html; charset=utf-8") }, func() any { return new(ap.MimeType) })
+	for _, form := range universe.StringForms {
+		form := form
+		add("MimeType "+form, func() any { return ap.MimeType(form) }, func() any { return new(ap.MimeType) })
+	}
 	for _, sh := range universe.ItemsShapes() {
 		sh := sh
 		add("ItemCollection "+sh.Name, func() any { return sh.Build(&universe.Gen{}).Interface() }, nil)
